@@ -251,6 +251,31 @@ def plan(ck):
     # (Yeast, Mold, Mycoplasma, Invertebrate, Echinoderm, Euplotid, Ascidian, Blepharisma all have 62 sense codons)
     for code in rng.sample([2, 3, 5, 7, 8, 11, 13], 2):
         cases.append(special("MG94", code=code))
+    # TWO sample dimensions [S1,S2,d] with the frequencies shared / with fewer batch dimensions / full, every model
+    for kind in ("HKY", "GTR", "GeneralSymmetric", "GeneralNonSymmetric") + (("MG94",) if th else ()):
+        for fflag in (False, "inner", True):
+            c = M.gen_case(rng, kind, dyadic=False, batch="two", route={"kind": "ctor", "mapping": "list"},
+                           n=4 if kind.startswith("General") else None)
+            for key in ("updates", "deepcopy", "move"):
+                c.pop(key, None)
+            c["regime"], c["holder"] = "f64", {}
+            c["ts"] = [[r[0], r[1], r[2], r[1] + r[2]] for r in c["ts"]]
+            rows = {False: 1, "inner": c["S2"], True: c["S"]}[fflag]
+            c["batch"]["frequencies"] = fflag
+            c["params"]["frequencies"] = [M.gen_freqs(rng, c["n"], False) for _ in range(rows)]
+            cases.append(c)
+    # models without inputs: construct -> a device/dtype move (incl. a conversion to the dtype they already have) -> p_t
+    for kind in ("LG", "WAG", "JC69", "GeneralJC69"):
+        for mv in ("cpu", "to", "to_dtype"):
+            c = special(kind)
+            c["move"] = mv
+            cases.append(c)
+        for reg in ("f64", "f32default"):  # built in one precision, converted to the other, used there
+            c = special(kind)
+            c["regime"], c["move"] = reg, "to_other"
+            c["ts"] = [[M.f32(min(x, 10.0)) for x in r[:3]] for r in c["ts"]]
+            c["ts"] = [[r[0], r[1], r[2], M.f32(r[1] + r[2])] for r in c["ts"]]
+            cases.append(c)
     # SIZE OF THE CALL x STRUCTURED rate matrices: many branch lengths in one p_t call (1, 2, 32, 33, 64, 500) must equal the
     # one-at-a-time evaluation and exp(tQ); nearly defective / banded / nearly reducible / stiff generators
     for kind in ("GeneralNonSymmetric", "GeneralSymmetric"):
@@ -327,7 +352,7 @@ def plan(ck):
     for kind, w in weights:
         for i in range(w * mult):
             dy = i % 3 == 0
-            batch = ("none", "all", "subset", "none")[i % 4]
+            batch = ("none", "all", "subset", "none", "two")[i % 5]
             cases.append(M.gen_case(rng, kind, dyadic=dy, batch=batch))
     return cases
 
@@ -398,6 +423,9 @@ def run(ck: Check):
             # evaluation under no_grad / with leaves requiring grad must agree bitwise with the plain one
             for mode in ("no_grad", "requires_grad"):
                 cc, want = dict(c, grad=mode, deepcopy=False), outs
+                if mode == "requires_grad" and c.get("updates"):
+                    # in-place update spellings are forbidden by torch on leaves that require grad: plain assignment
+                    cc["updates"] = [dict(u, mode="assign") for u in c["updates"]]
                 if mode == "requires_grad" and "view" in (c.get("holder") or {}).values():
                     # assigning through a view writes in place into a leaf that requires grad (torch forbids it;
                     # ViewParameter's business): first evaluation only
@@ -438,6 +466,8 @@ def run(ck: Check):
                     sample=None if c["n"] > 4 else {"case": c, "step": k, "impl_q_row0": [float(x) for x in out["Q"][0][0]] if st == "ok" else out["error"]})
             ck.bucket("layout=" + c.get("layout", "BK") + ("/batched-branch-lengths" if c["R"] > 1 else ""))
             if st != "ok":
+                if c.get("move") == "to_other" and st == "raise":
+                    return  # converting an input-free model to another dtype may be refused; it must not be wrong
                 if M.supported_batching(c) or st == "shape":
                     ck.mismatch("implementation raised / returned a wrong shape", {"case": c, "step": k, "error": out["error"]})
                     failures.append((c, "raises", {"step": k, "error": out["error"]}))
@@ -572,7 +602,7 @@ def shrink(c, name):
             return best
     if c["R"] > 1:
         for s in range(c["R"]):
-            cc = dict(c, S=1, R=1, batch={k: False for k in c["batch"]},
+            cc = dict({x: y for x, y in c.items() if x not in ("S1", "S2")}, S=1, R=1, batch={k: False for k in c["batch"]},
                       params={k: [M.slice_param(c, k, s if c["S"] > 1 else 0)] for k in c["params"]}, ts=[c["ts"][s]])
             if failing_steps(cc, name):
                 return cc
